@@ -52,13 +52,13 @@ for wid in ids:
                 elif dd.startswith('chainimport'): rel |= {'C14'}
                 elif dd.startswith('query'): rel |= {'C12'}
                 elif dd == '': rel |= {'C01','C02','C03','C05','C06','C09','C10','C11','C13','C19'}
-            rel.add(wid.rstrip('bcde'))
+            rel.add(wid.rstrip('bcdef'))
             if os.environ.get('SEED_FAST'):
                 # fast mode: the property the change was seeded for plus every check that has a function under
                 # contract whose name is the enclosing function of a hunk of the patch
                 led = json.load(open('/verif/ledger.json'))['functions']
                 names = set(re.findall(r'^@@ .*@@ func (?:\([^)]*\) )?([A-Za-z0-9_]+)', open(f'{d}/patch.diff').read(), re.M))
-                fast = {wid.rstrip('bcde')}
+                fast = {wid.rstrip('bcdef')}
                 for pid, fns in led.items():
                     for fk in fns:
                         base = fk.split('.')[-1].split('$')[0]
@@ -77,7 +77,7 @@ for wid in ids:
         os.makedirs(out, exist_ok=True)
         shutil.copy(f'{d}/patch.diff', out); shutil.copy(f'{d}/demo_test.go', out)
         meta = json.load(open(f'{d}/meta.json'))
-        meta.update({'seeded_for': wid.rstrip('bcde'), 'confirmed_by_builder': {'demo_fails_with_patch': True, 'demo_passes_without_patch': True,
+        meta.update({'seeded_for': wid.rstrip('bcdef'), 'confirmed_by_builder': {'demo_fails_with_patch': True, 'demo_passes_without_patch': True,
             'existing_stable_tests_pass_with_patch': True, 'note': 'confirm_seeded.sh in the scratch worktree; root-package failures limited to the four btcd-dependent tests that are not in the baseline' if btcd_only else 'confirm_seeded.sh in the scratch worktree'},
             'checks_run': sorted(rel & set(props)), 'detected_by': detected, 'failed_obligations': obligations, 'checks_undecided_exit2': broken})
         json.dump(meta, open(f'{out}/meta.json', 'w'), indent=1)
